@@ -401,7 +401,9 @@ class Renderer:
 
     def call_expr(self, t, depth=None, bi=None):
         depth = self.depth if depth is None else depth
-        return ("call", callee_name(t), tuple(self.operand(a, depth) for a in t["args"]), bi)
+        f = t.get("f", {})
+        return ("call", callee_name(t), tuple(self.operand(a, depth) for a in t["args"]), bi,
+                f.get("rname") or f.get("name") or "", f.get("ga", ""))
 
     def operand(self, o, depth=None):
         depth = self.depth if depth is None else depth
@@ -550,6 +552,19 @@ class Branch:
 
     def label(self, prog, v):
         if v == "else":
+            if self.ty == "bool":
+                vals = {c for c, _ in self.cases}
+                if vals == {0}:
+                    return "true"
+                if vals == {1}:
+                    return "false"
+            if self.adt:
+                # `otherwise` of an enum switch that lists all variants but one names that variant
+                a = prog.adts.get(self.adt)
+                if a:
+                    rest = [vv["n"] for vv in a["variants"] if vv["d"] not in {c for c, _ in self.cases}]
+                    if len(rest) == 1:
+                        return rest[0]
             return "else"
         if self.adt:
             n = prog.variant_name(self.adt, v)
